@@ -57,18 +57,34 @@ def mutate(rng, b):
     return bytes(b) + bytes(b[rng.randrange(len(b)):])                  # duplicate tail
 
 
+def late_failure(rng, sch, ty, base):
+    """a well-framed input that passes the scan pass (and the required-field check, if `base` does) and fails only in the
+    parse pass: a known field sent with a wire type its type does not accept"""
+    fs = [f for f in sch.msgs[ty].fields if f.type != T_BOOL]
+    if not fs:
+        return None
+    f = rng.choice(fs)
+    wt = rng.choice([w for w in (0, 1, 2, 5) if w != wire_type(f.type) and not (w == 2 and f.label == L_REP and f.type in PACKABLE)])
+    rec = enc_key(f.id, wt) + {0: b'\x01', 1: bytes(8), 5: bytes(4), 2: b'\x01a'}[wt]
+    pos = rng.choice(['end', 'end', 'start'])
+    return base + rec if pos == 'end' else rec + base
+
+
 def gen_wire_cases(rng, n, big, ops=('unpack', 'acc')):
     lines = []
     stats = {'schemas': 0, 'valid': 0, 'knobbed': 0, 'mutated': 0, 'random': 0}
     total = 0
     while total < n:
-        sch = rand_schema(rng, big=big)
+        sch = rand_schema(rng, big=big or rng.random() < 0.08)      # now and then a message type with > 128 fields
         lines += sch.lines()
         stats['schemas'] += 1
         for _ in range(rng.choice([3, 6, 10])):
             ty = rng.randrange(len(sch.msgs))
             m = rand_msg(rng, sch, ty, big=big)
             encs = [('valid', encode(sch, m))]
+            late = late_failure(rng, sch, ty, encs[0][1])
+            if late is not None:
+                encs.append(('mutated', late))
             for _ in range(2):
                 knobs = {'pad': rng.random() < 0.6, 'flip_packed': rng.random() < 0.5, 'split_packed': rng.random() < 0.5,
                          'stale': rng.random() < 0.5, 'shuffle': rng.random() < 0.6, 'empty_packed': rng.random() < 0.4}
@@ -177,7 +193,8 @@ def gen_alloc_cases(rng, n, big, faults):
     stats = {'schemas': 0, 'inputs': 0, 'masks': 0}
     while stats['inputs'] < n:
         # half of the schemas are rich in fields that own heap blocks (strings, bytes, sub-messages)
-        sch = rand_schema(rng, big=big, types=([T_STRING] * 4 + [T_BYTES] * 3 + [T_MESSAGE] * 3 + list(range(17))) if rng.random() < 0.5 else None)
+        sch = rand_schema(rng, big=big or rng.random() < 0.08,
+                          types=([T_STRING] * 4 + [T_BYTES] * 3 + [T_MESSAGE] * 3 + list(range(17))) if rng.random() < 0.5 else None)
         lines += sch.lines()
         stats['schemas'] += 1
         for _ in range(rng.choice([3, 5])):
@@ -187,8 +204,11 @@ def gen_alloc_cases(rng, n, big, faults):
                      'stale': rng.random() < 0.6, 'shuffle': rng.random() < 0.5, 'empty_packed': rng.random() < 0.3,
                      'split_msg': rng.random() < 0.5, 'multi_occ': rng.random() < 0.5, 'multi_oneof': rng.random() < 0.6}
             b = encode(sch, m, rng, knobs)
-            if rng.random() < 0.25:
+            r = rng.random()
+            if r < 0.2:
                 b = mutate(rng, b)
+            elif r < 0.35:
+                b = late_failure(rng, sch, ty, b) or b
             stats['inputs'] += 1
             if not faults:
                 lines.append('unpackf %d X%s - 0' % (ty, b.hex()))
@@ -355,6 +375,15 @@ def gen_defect_cases(rng, n, big):
     lines, stats = [], {'schemas': 0, 'well_formed': 0, 'defective': 0, 'kinds': {}}
     while stats['well_formed'] + stats['defective'] < n:
         sch = rand_schema(rng, big=big, types=[T_STRING, T_BYTES, T_MESSAGE] * 3 + list(range(17)), nmsgs=rng.choice([2, 3]))
+        if rng.random() < 0.4:
+            # a message type WITHOUT fields used as a sub-message (marker messages): a pointer to it can still be NULL,
+            # an array of it can still be missing
+            sch.msgs[-1].fields = []
+            sch.msgs[-1].ngroups = 0
+            for mm in sch.msgs[:-1]:
+                for f in mm.fields:
+                    if f.type == T_MESSAGE and rng.random() < 0.6:
+                        f.sub = len(sch.msgs) - 1
         lines += sch.lines()
         stats['schemas'] += 1
         for _ in range(rng.choice([4, 8])):
